@@ -984,15 +984,18 @@ Definition tr_stops_ok (hx : list byte -> Resume.digest) (sc : tr_sched) (src ol
     let size := Nat.min (length src) (length old) in
     (Resume.good_blocks tr_hash_B hx size src old size 0 < k)%nat
   end.
-(* what may be in the way of an entry: nothing - or, with overwrite on, a regular file where a file goes *)
+(* what may be in the way of an entry: nothing - or, with overwrite on, a regular file where a file goes
+   (protocol >= 3 resumes onto it: then the hash sender stops only after the verdict, and the prefix
+   digests compared do not collide) *)
 Definition tr_place_ok (hx : list byte -> Resume.digest) (c : tr_cfg) (d : path) (f0 : fs) (es : tr_entry * tr_sched) : Prop :=
   lookup f0 (tr_leaf_of c d (fst es)) = None \/
   (tc_overwrite c = true /\ te_isdir (fst es) = false /\
-   exists old, lookup f0 (tr_leaf_of c d (fst es)) = Some (File old) /\ tr_stops_ok hx (snd es) (te_data (fst es)) old).
+   exists old, lookup f0 (tr_leaf_of c d (fst es)) = Some (File old) /\
+     tr_stops_ok hx (snd es) (te_data (fst es)) old /\ tr_no_collision hx (te_data (fst es)) old).
 (* clean names; no two entries at one place; every entry below the top level comes after its
    parent directory, which has the same path id; entries share a path id exactly when they share
    the top-level name; nothing but (overwrite on) a regular file in the way at the destination;
-   SubFiles as [tr_wf] wants them, with clean names *)
+   SubFiles only in archive mode, as [tr_wf] wants them, below a directory; then one item per path id *)
 Definition tr_ready (hx : list byte -> Resume.digest) (c : tr_cfg) (d : path) (f0 : fs) (items : list (tr_entry * tr_sched)) : Prop :=
   let es := map fst items in
   Forall (tr_entry_clean c) es /\
@@ -1002,9 +1005,8 @@ Definition tr_ready (hx : list byte -> Resume.digest) (c : tr_cfg) (d : path) (f
        tr_key c e' :: tr_tail c e' = removelast (tr_key c e :: tr_tail c e)) /\
   (forall e e', In e es -> In e' es -> (te_id e = te_id e' <-> tr_key c e = tr_key c e')) /\
   (forall it, In it items -> tr_place_ok hx c d f0 it) /\
-  (forall e, In e es -> te_subs e <> [] ->
-     tr_archive_mode c = true /\ tr_subs_wf e /\ te_isdir e = true /\
-     Forall (fun s => Forall tr_name_fine (te_rel s)) (te_subs e)).
+  (forall e, In e es -> te_subs e <> [] -> tr_archive_mode c = true /\ tr_subs_wf e /\ te_isdir e = true) /\
+  (tr_archive_mode c = true -> NoDup (map te_id es)).
 
 (* the escape table is absent or well-formed *)
 Definition tr_table_ok (c : tr_cfg) : Prop := tc_table c = [] \/ wf (tc_table c) = true.
